@@ -452,6 +452,23 @@ func gridLiterals() []Case {
 			}
 		}
 	}
+	// the 64-bit limits as mantissa at every precision: the digits of 2^63-2 ... 2^63+1, 2^64-1 ... 2^64+1 and
+	// 10^19-1, 10^19 with the point placed f digits from the right, read at precision f, and at f+1 (one more
+	// digit to make up) and f-1 (one digit too many) where those exist
+	for _, digits := range []string{"9223372036854775806", "9223372036854775807", "9223372036854775808", "9223372036854775809", "9223372036854775810",
+		"18446744073709551615", "18446744073709551616", "18446744073709551617", "9999999999999999999", "10000000000000000000", "922337203685477580", "922337203685477581", "1844674407370955161", "1844674407370955162"} {
+		for f := 1; f <= 18 && f < len(digits); f++ {
+			ip, fp := digits[:len(digits)-f], digits[len(digits)-f:]
+			for _, sign := range []string{"", "-", "+"} {
+				lit := sign + ip + "." + fp
+				for _, fd := range []int{f - 1, f, f + 1} {
+					if fd >= 1 && fd <= 18 {
+						out = append(out, Case{Op: "literal", Lit: lit, FD: uint8(fd)})
+					}
+				}
+			}
+		}
+	}
 	return out
 }
 
